@@ -117,9 +117,9 @@ func (g *Gen) evalSpec(ctx *specCtx, e Expr) Val {
 		i := g.evalInt(ctx, x.I)
 		switch b := base.(type) {
 		case SliceV:
-			return g.specLoad(ctx, PtrV{RootKey: typeKey(b.Elem), Ref: b.Ref, Idx: g.add(b.Off, i), Elem: b.Elem})
+			return g.specLoad(ctx, PtrV{RootKey: typeKey(b.Elem), Ref: b.Ref, Idx: g.elemIdx(b.Off, i), Elem: b.Elem})
 		case StrV:
-			return IntV{"(select " + b.Arr + " " + g.add(b.Off, i) + ")"}
+			return IntV{"(select " + b.Arr + " " + g.elemIdx(b.Off, i) + ")"}
 		case ArrV:
 			return g.cellGet(b, []pstep{{Idx: i}})
 		}
@@ -434,7 +434,7 @@ func (g *Gen) qualified(ctx *specCtx, pkgName, name string) (Val, bool) {
 func (g *Gen) seqAt(ctx *specCtx, v Val, i string) string {
 	switch b := v.(type) {
 	case SliceV:
-		x := g.specLoad(ctx, PtrV{RootKey: typeKey(b.Elem), Ref: b.Ref, Idx: g.add(b.Off, i), Elem: b.Elem})
+		x := g.specLoad(ctx, PtrV{RootKey: typeKey(b.Elem), Ref: b.Ref, Idx: g.elemIdx(b.Off, i), Elem: b.Elem})
 		if iv, ok := x.(IntV); ok {
 			return iv.T
 		}
@@ -443,7 +443,7 @@ func (g *Gen) seqAt(ctx *specCtx, v Val, i string) string {
 		}
 		g.unsupported("sequence of non-scalar elements")
 	case StrV:
-		return "(select " + b.Arr + " " + g.add(b.Off, i) + ")"
+		return "(select " + b.Arr + " " + g.elemIdx(b.Off, i) + ")"
 	}
 	g.unsupported(fmt.Sprintf("not a sequence: %T", v))
 	return ""
